@@ -38,6 +38,9 @@ pub const E_ESCPAREN: &str = "\\(\\[A\\-Z\\]\\)\\+([\\p{Ll}]|\\-)+?";
 pub const E_PCT: &str = "([\\p{Ll}0-9]|%[0-9A-Z]{2})+?";
 pub const E_NESTED: &str = "(?:f.+?)";
 pub const E_UP: &str = "([A-Z]+?)";
+pub const E_RPAREN: &str = "([\\p{Ll}]|_|\\))+?";
+pub const E_LPAREN: &str = "([\\p{Ll}]|\\()+?";
+pub const E_BSLASH: &str = "([\\p{Ll}]|\\\\)+?";
 
 #[derive(Clone, Debug)]
 pub enum Part {
@@ -82,6 +85,9 @@ fn samples_for(expr: &str) -> &'static [&'static str] {
         E_PCT => &["a%C3%A9", "abc1"],
         E_NESTED => &["foo", "fx"],
         E_UP => &["A", "XYZ"],
+        E_RPAREN => &["a)b", "x_y", ")"],
+        E_LPAREN => &["a(b", "(", "xy"],
+        E_BSLASH => &["a\\b", "xy"],
         _ => &["x"],
     }
 }
@@ -128,6 +134,16 @@ pub fn catalogue() -> Vec<Vec<Part>> {
         vec![Lit("/n/"), Ex(E_NESTED)],
         vec![Lit("/a/"), Ex(E_INT), Lit("/"), Ex(E_INT)],
         vec![Lit("/a/"), Ex(E_INT), Lit("-"), Ex(E_INT)],
+        vec![Lit("/w/"), Ex(E_RPAREN), Lit("/edit")],
+        vec![Lit("/w/"), Ex(E_RPAREN), Lit("/history")],
+        vec![Lit("/w/"), Ex(E_LPAREN), Lit("/a")],
+        vec![Lit("/w/"), Ex(E_LPAREN), Lit("/b")],
+        vec![Lit("/w)/"), Ex(E_INT)],
+        vec![Lit("/w)/"), Ex(E_ENUM)],
+        vec![Lit("/w(/"), Ex(E_INT), Lit(")")],
+        vec![Lit("/w(/"), Ex(E_ENUM), Lit(")")],
+        vec![Lit("/w\\/"), Ex(E_BSLASH), Lit("/a")],
+        vec![Lit("/w\\/"), Ex(E_BSLASH), Lit("/b")],
     ]
 }
 
